@@ -1001,6 +1001,15 @@ func (s *Service) runPipeline(ctx context.Context, rp *runnablePipeline) error {
 				if cerrors.IsFatalError(err) && !cerrors.Is(err, context.Canceled) {
 					fatalNodeErr.CompareAndSwap(nil, &err)
 				}
+				// Record the error on the tomb now, before the deferred
+				// nodesWg.Done() fires: tomb only registers a returned error
+				// after this function has returned, i.e. after the cleanup
+				// goroutine may already have been woken by Done and read
+				// ErrStillAlive - the error of the LAST node to finish was lost
+				// and a failed pipeline was finalized as stopped (arch-v2 kills
+				// its tomb synchronously for the same reason). Kill is idempotent,
+				// the first reason still wins.
+				rp.t.Kill(err)
 				return err
 			}
 			return nil
